@@ -147,13 +147,14 @@ func init() {
 			"one ONCE call site per query; no LIMIT; function errors under ASYNC belong to C10/C19; SPIN completion before return is not required (only 'adds no column')",
 			"ASYNC calls appear as direct select-list items (the README rules out ASYNC inside FROM clauses)",
 		},
-		Floor:         []string{"q.plain", "q.async", "q.spinasync", "q.spin", "q.once", "q.await-async", "star", "where", "nested", "shape.union", "shape.cte", "shape.multidim", "arg.null", "page", "page.empty", "order.async", "distinct.async", "joinop.derived", "joinop.both", "builtin.async", "failwait", "lat.zero", "lat.yield", "lat.random", "lat.skewed", "lat.straggler", "table.empty", "imm.async", "imm.spin", "imm.spinasync", "imm.harness", "imm.harness-mixedcase"},
+		Floor:         []string{"q.plain", "q.async", "q.spinasync", "q.spin", "q.once", "q.await-async", "star", "where", "nested", "shape.union", "shape.cte", "shape.multidim", "arg.null", "page", "page.empty", "order.async", "distinct.async", "joinop.derived", "joinop.both", "consumed.where", "consumed.aggregate", "consumed.group", "consumed.join-on", "consumed.in-subquery", "consumed.fnarg", "consumed.cte", "consumed.order", "builtin.async", "failwait", "lat.zero", "lat.yield", "lat.random", "lat.skewed", "lat.straggler", "table.empty", "imm.async", "imm.spin", "imm.spinasync", "imm.harness", "imm.harness-mixedcase", "imm.registered-late"},
 		MinNontrivial: 30,
 		Phases: []fw.Phase{
 			{Name: "ledger", N: func(t fw.Tier) int { return pick(t, 2500, 40000) }, Run: func(c *fw.Case) { c14Ledger(c, false) }},
 			{Name: "builtin", Race: true, N: func(t fw.Tier) int { return pick(t, 40, 600) }, Run: c14Builtin, Batch: 8},
 			{Name: "failwait", N: func(t fw.Tier) int { return pick(t, 300, 6000) }, Run: c14FailWait},
 			{Name: "joinop", N: func(t fw.Tier) int { return pick(t, 300, 6000) }, Run: c14JoinOperand},
+			{Name: "consumed", N: func(t fw.Tier) int { return pick(t, 400, 8000) }, Run: c14Consumed},
 			{Name: "immediate", N: func(t fw.Tier) int { return len(c14Immediates) * 3 }, Run: c14Immediate},
 			{Name: "race", Race: true, N: func(t fw.Tier) int { return pick(t, 300, 5000) }, Run: func(c *fw.Case) { c14Ledger(c, true) }},
 		},
@@ -721,14 +722,36 @@ func waitCalls(base int64, expected int) {
 
 var c14Immediates = []string{"SUM", "AVG", "MIN", "MAX", "COUNT", "FUSE", "DATERANGE", "CONSTANT", "GETVAR", "SETVAR", "RAISE", "RAISE_WHEN", "REPORT", "REPORT_WHEN", "TIMESTAMP", "TO_LOWER", "TO_UPPER", "VIMM", "VImmMixed", "vimmmixed"}
 
+var c14LateCalls atomic.Int64
+
 func c14Immediate(c *fw.Case) {
 	fn := c14Immediates[c.Idx%len(c14Immediates)]
 	q := []string{"ASYNC", "SPIN", "SPINASYNC"}[(c.Idx/len(c14Immediates))%3]
 	args := map[string]string{"SUM": "n1", "AVG": "n1", "MIN": "n1", "MAX": "n1", "COUNT": "n1", "FUSE": "obj", "DATERANGE": "'a', 'b'", "CONSTANT": "'c1'", "GETVAR": "'k'", "SETVAR": "'k', 1",
 		"RAISE": "'x'", "RAISE_WHEN": "false, 'x'", "REPORT": "'x'", "REPORT_WHEN": "false, 'x'", "TIMESTAMP": "", "TO_LOWER": "s1", "TO_UPPER": "s1", "VIMM": "n1", "VImmMixed": "n1", "vimmmixed": "n1"}[fn]
-	sql := fmt.Sprintf("SELECT rid, %s.%s(%s) AS v FROM t1", q, fn, args)
 	doc := map[string]any{"t1": []any{map[string]any{"rid": 0.0, "n1": 1.0, "s1": "a", "obj": map[string]any{"k": 1.0}}, map[string]any{"rid": 1.0, "n1": 2.0, "s1": "b", "obj": map[string]any{"k": 2.0}}}}
 	armFault(0, faultNone)
+	if fn == "vimmmixed" {
+		// a function registered as immediate late in the life of the process:
+		// after queries have evaluated function calls, and while none is running
+		if w := Run(val.CopyMap(doc), "SELECT rid, CONCAT(s1, '!') AS x, VIMM(n1) AS y FROM t1"); !w.OK() {
+			c.Violate("error", fmt.Sprintf("warm-up query failed: %v", w.Describe()), map[string]any{"doc": doc})
+			return
+		}
+		fn = fmt.Sprintf("VLate%dx%d", c.Idx, c.Intn(1000))
+		genql.RegisterImmediateFunction(fn, func(q *genql.Query, cur genql.Map, o *genql.FunctionOptions, args []any) (any, error) {
+			c14LateCalls.Add(1)
+			return args[0], nil
+		})
+		args = "n1"
+		c.Feature("imm.registered-late")
+		if u := Run(val.CopyMap(doc), fmt.Sprintf("SELECT rid, %s(n1) AS v FROM t1", fn)); !u.OK() {
+			c.Violate("error", fmt.Sprintf("an immediate function registered late cannot be called unqualified: %v", u.Describe()), map[string]any{"doc": doc, "function": fn})
+			return
+		}
+	}
+	lateBefore := c14LateCalls.Load()
+	sql := fmt.Sprintf("SELECT rid, %s.%s(%s) AS v FROM t1", q, fn, args)
 	o := Run(doc, sql, genql.WithVars(map[string]any{}), genql.WithConstants(map[string]any{"c1": 1.0}))
 	c.Feature("imm." + strings.ToLower(q))
 	if fn == "VIMM" {
@@ -741,6 +764,10 @@ func c14Immediate(c *fw.Case) {
 	det := map[string]any{"sql": sql, "doc": doc, "observed": o.Describe()}
 	if o.Panic != nil {
 		c.Violate("panic", fmt.Sprintf("panic: %v", o.Panic), det)
+		return
+	}
+	if n := c14LateCalls.Load() - lateBefore; n != 0 {
+		c.Violate("immediate-accepted", fmt.Sprintf("%s is registered as immediate but was run %d times by %s", fn, n, q), det)
 		return
 	}
 	if o.Err == nil {
@@ -988,5 +1015,98 @@ func c14FailWait(c *fw.Case) {
 	}
 	if started >= 1 {
 		c.Nontrivial(sql + fmt.Sprint(k) + val.Canon(t.Array()))
+	}
+}
+
+
+// c14Consumed: an ASYNC call in the select list of a nested query (derived
+// table, CTE, joined derived table, IN sub-select) whose column the enclosing
+// query consumes while it runs - in WHERE, an aggregate, GROUP BY, ON, a
+// function argument, ORDER BY. Qualifying the call changes when it runs, not
+// what the query returns: the result equals the unqualified query's, and no
+// call is still running when Exec returns.
+var c14ConsumedForms = []struct {
+	feat, tpl string
+	multiset  bool
+}{
+	{"consumed.where", "SELECT d.rid, d.v FROM (SELECT rid, %sVF(n1, rid, 1)%s AS v FROM t1) d WHERE d.v > %K", false},
+	{"consumed.where", "SELECT d.rid FROM (SELECT rid, %sVF(s1, rid, 1)%s AS v, n1 FROM t1 WHERE n1 >= 0) d WHERE d.v != 'zz' AND d.v LIKE '%%!1'", false},
+	{"consumed.aggregate", "SELECT SUM(d.v) AS s, COUNT(*) AS c, MAX(d.v) AS m FROM (SELECT rid, %sVF(n1, rid, 1)%s AS v FROM t1) d", false},
+	{"consumed.group", "SELECT d.s1, SUM(d.v) AS s FROM (SELECT s1, %sVF(n1, rid, 1)%s AS v FROM t1) d GROUP BY d.s1", true},
+	{"consumed.group", "SELECT d.v AS k, COUNT(*) AS c FROM (SELECT rid, %sVF(s1, rid, 1)%s AS v FROM t1) d GROUP BY d.v", true},
+	{"consumed.join-on", "SELECT o.rid, c.k FROM t1 o JOIN (SELECT rid, %sVF(n2, rid, 1)%s AS k FROM t1) c ON o.n1 = c.k", true},
+	{"consumed.join-on", "SELECT o.rid, c.k FROM t1 o LEFT JOIN (SELECT rid, %sVF(n2, rid, 1)%s AS k FROM t1) c ON o.n1 <= c.k", true},
+	{"consumed.in-subquery", "SELECT rid FROM t1 WHERE n1 IN (SELECT %sVF(n2, rid, 1)%s AS q FROM `<-t1`)", false},
+	{"consumed.fnarg", "SELECT d.rid, CONCAT(d.v, '!') AS c, ARRAY(d.v) AS a, IF(d.v = d.v, 1, 0) AS e FROM (SELECT rid, %sVF(s1, rid, 1)%s AS v FROM t1) d", false},
+	{"consumed.cte", "WITH d AS (SELECT rid, %sVF(n1, rid, 1)%s AS v FROM t1) SELECT rid, (v + 1) AS w FROM d WHERE v >= %K", false},
+	{"consumed.order", "SELECT d.rid, d.v FROM (SELECT rid, %sVF(n1, rid, 1)%s AS v FROM t1) d ORDER BY d.v DESC, d.rid ASC", false},
+}
+
+func c14Consumed(c *fw.Case) {
+	t := gen.RandTable(c.R, gen.TableSpec{Name: "t1", MinRows: 1, MaxRows: 10, NumCols: 2, StrCols: 1, StrStyle: gen.Plain})
+	doc := DocOf(t)
+	f := c14ConsumedForms[c.Idx%len(c14ConsumedForms)]
+	k := gen.SQLLit(vfValue(gen.Pick(c.R, t.Pools["n1"]), 1), 0)
+	mk := func(pre, post string) string {
+		sql := strings.ReplaceAll(f.tpl, "%K", k)
+		sql = strings.Replace(sql, "%s", pre, 1)
+		sql = strings.Replace(sql, "%s", post, 1)
+		return strings.ReplaceAll(sql, "%%", "%")
+	}
+	plain := mk("", "")
+	sql := mk("ASYNC.", "")
+	if c.Chance(0.25) {
+		sql = mk("AWAIT(ASYNC.", ")")
+		c.Feature("q.await-async")
+	}
+	c.Feature(f.feat)
+	profile := c14Profiles[c.Idx%len(c14Profiles)]
+	c14Plan(c, profile, []int32{1}, 64)
+	c.Feature("lat." + profile)
+	armFault(0, faultNone)
+	base := vfEntered.Load()
+	p := Run(val.CopyMap(doc), plain)
+	waitCalls(base, 0)
+	ledgerReset()
+	base = vfEntered.Load()
+	o := Run(val.CopyMap(doc), sql)
+	ret := ledgerAppend(evRet, -1, -1)
+	snap := ledgerSnapshot()
+	waitCalls(base, 0)
+	total := int(vfEntered.Load() - base)
+	c.Evals(2)
+	c.Sample(map[string]any{"sql": sql, "rows": len(t.Rows), "latency_profile": profile})
+	det := map[string]any{"sql": sql, "unqualified": plain, "doc": doc, "latency_profile": profile, "observed": o.Describe(), "unqualified_result": p.Describe()}
+	if !p.OK() {
+		c.Discard("the unqualified query fails")
+		return
+	}
+	if !o.OK() {
+		c.Violate("error", fmt.Sprintf("the query fails with ASYNC although the unqualified query succeeds: %v", o.Describe()), det)
+		return
+	}
+	ends := 0
+	for _, e := range snap {
+		if e.kind == evEnd && e.seq < ret {
+			ends++
+		}
+	}
+	if ends != total {
+		det["ledger"] = fmt.Sprintf("%d calls in all, %d call-ends before exec-return", total, ends)
+		c.Violate("invocation", fmt.Sprintf("the query made %d background calls, %d had completed when Exec returned", total, ends), det)
+		return
+	}
+	if probs := val.PlainWalk(o.Rows, "<-"); len(probs) > 0 {
+		det["problems"] = probs
+		c.Violate("not-plain", fmt.Sprintf("unresolved or non-plain value in the result: %s", strings.Join(probs, "; ")), det)
+		return
+	}
+	same := val.SameSeq(o.Rows, p.Rows) || f.multiset && val.SameMultiset(o.Rows, p.Rows) || len(o.Rows) == 0 && len(p.Rows) == 0
+	if !same {
+		c.Violate("value", fmt.Sprintf("with ASYNC the query returns %s, unqualified it returns %s", short(val.Canon(o.Rows), 300), short(val.Canon(p.Rows), 300)), det)
+		return
+	}
+	if len(p.Rows) >= 1 && total >= 2 {
+		c.Nontrivial(sql + "|" + val.Canon(t.Array()))
 	}
 }
